@@ -88,7 +88,17 @@ func (rt c15RT) RoundTrip(req *http.Request) (*http.Response, error) {
 			b, _ := json.Marshal(map[string]any{"resource": res, "authorization_servers": servers, "scopes_supported": []string{"s"}})
 			return string(b)
 		}
-		switch fault("prm-answer", 9) {
+		docWith := func(res, field, value string) string {
+			b, _ := json.Marshal(map[string]any{"resource": res, "authorization_servers": []string{"https://as-of-scripted-prm.example"}, "scopes_supported": []string{"s"}, field: value})
+			return string(b)
+		}
+		switch fault("prm-answer", 12) {
+		case 9:
+			return c15JSON(200, docWith(resource, "resource_policy_uri", "javascript:alert(1)")), nil
+		case 10:
+			return c15JSON(200, docWith(resource, "jwks_uri", "data:text/html,<script>1</script>")), nil
+		case 11:
+			return c15JSON(200, docWith(resource, "resource_documentation", "vbscript:msgbox(1)")), nil
 		case 0:
 			as := "https://as.example"
 			if s.prmNamesAS != "" {
@@ -356,7 +366,7 @@ func c15Run(ch *verifx.Chooser) (obs, bad, sig string, steps int) {
 				fail("rejected-metadata-forgotten "+variant, "%s served authorization-server metadata that must be rejected (%s), yet the code was exchanged at its default endpoints as if no metadata existed (%s)", host, variant, last)
 			}
 		}
-		for _, host := range []string{"as-of-mismatching-prm.example", "as-plain-http.example", "as-of-html-prm.example"} {
+		for _, host := range []string{"as-of-mismatching-prm.example", "as-plain-http.example", "as-of-html-prm.example", "as-of-scripted-prm.example"} {
 			if strings.Contains(last, "host="+host) {
 				fail("rejected-resource-metadata-used "+host, "the code was sent to %s, an authorization server named only by protected-resource metadata that must be rejected", host)
 			}
@@ -366,7 +376,7 @@ func c15Run(ch *verifx.Chooser) (obs, bad, sig string, steps int) {
 		}
 	}
 	for _, host := range s.asHostsAsked {
-		if host == "as-of-mismatching-prm.example" || host == "as-of-html-prm.example" {
+		if host == "as-of-mismatching-prm.example" || host == "as-of-html-prm.example" || host == "as-of-scripted-prm.example" {
 			fail("rejected-resource-metadata-used "+host, "authorization-server metadata was requested from %s, named only by resource metadata that must be rejected", host)
 		}
 	}
